@@ -12,9 +12,9 @@ go build ./... || { echo "BUILD FAILS"; exit 1; }
 T1=$(go test -count=1 ./... 2>&1 | grep -E "^(FAIL|---)" | head -5)
 if [ -n "$T1" ]; then T1=$(go test -count=1 ./... 2>&1 | grep -E "^(FAIL|---)" | head -5); fi
 cp $CH/demo_test.go $WT/$DEMO/zz_demo_test.go
-D1=$(cd $WT/$DEMO && go test -count=1 -run 'Demo' . 2>&1 | tail -1)
+D1=$(cd $WT/$DEMO && go test ${6:+-tags $6} -count=1 -run 'Demo' . 2>&1 | tail -1)
 git checkout -q -- .
-D2=$(cd $WT/$DEMO && go test -count=1 -run 'Demo' . 2>&1 | tail -1)
+D2=$(cd $WT/$DEMO && go test ${6:+-tags $6} -count=1 -run 'Demo' . 2>&1 | tail -1)
 rm -f $WT/$DEMO/zz_demo_test.go
 cd /verif
 git -C /repo apply $CH/patch.diff
